@@ -1,10 +1,16 @@
 #!/bin/bash
-# runs every claimed quick check with several seeds; prints any non-zero exit
+# runs every claimed quick check with several seeds against a snapshot copy of /repo;
+# prints any non-zero exit. usage: stability.sh [seeds...]
 cd /verif
+snap=/var/tmp/stab-repo
+sv=/var/tmp/stab-verif
+rm -rf $snap $sv; rsync -a --exclude .git /repo/ $snap/; mkdir -p $sv; cp -r ledger known_findings.json drivers $sv/
+seeds=${@:-1 2 3 4 5 6}
 for p in $(python3 -c "import json;print(' '.join(c['property_id'] for c in json.load(open('MANIFEST.json'))['checks']))"); do
-  for s in 1 2 3 4 5 6; do
-    out=$(VERIF_SEED=$s ./bin/govc check -property $p 2>&1); rc=$?
+  for s in $seeds; do
+    out=$(VERIF_SEED=$s ./bin/govc check -repo $snap -verif $sv -property $p 2>&1); rc=$?
     if [ $rc -ne 0 ]; then echo "ALARM $p seed=$s rc=$rc"; echo "$out" | grep "VIOLATION\|UNDECIDED\|BROKEN" | head -5; fi
   done
   echo "done $p"
 done
+rm -rf $snap $sv
